@@ -236,6 +236,186 @@ func init() {
 		b.WriteString("Definition asp_switch_cases : list (list N) :=\n  [" + strings.Join(cases, ";\n   ") + "]%N.\n")
 		b.WriteString("Definition asp_fail_cases : list (list N) := [" + strings.Join(fails, "; ") + "]%N.\n")
 		b.WriteString("Definition asp_default_message : string := " + coqString(defaultMsg) + ".\n")
+
+		// --- asp lexer: what consumeString appends for the byte after a backslash ---------------------------
+		// `if escaped { if next == 'n' {...} else if ... else {...}; escaped = false; continue }`: every branch is a
+		// disjunction of `next == <byte>` (optionally `&& multiline`) whose body only appends bytes / `next` to value
+		// (and counts lines).  A rule is (bytes, needs multiline, appended) with None standing for `next`.
+		cs := findFunc(fl, "lex", "consumeString")
+		var escIf *ast.IfStmt
+		ast.Inspect(cs.Body, func(n ast.Node) bool {
+			if is, ok := n.(*ast.IfStmt); ok && types.ExprString(is.Cond) == "escaped" {
+				if escIf != nil {
+					failShape("consumeString: more than one `if escaped`")
+				}
+				escIf = is
+			}
+			return true
+		})
+		if escIf == nil || escIf.Else != nil || len(escIf.Body.List) != 3 {
+			failShape("consumeString: `if escaped { <chain>; escaped = false; continue }` not found")
+		}
+		if as, ok := escIf.Body.List[1].(*ast.AssignStmt); !ok || types.ExprString(as.Lhs[0]) != "escaped" || types.ExprString(as.Rhs[0]) != "false" {
+			failShape("consumeString: the escape branch does not reset `escaped`")
+		}
+		if br, ok := escIf.Body.List[2].(*ast.BranchStmt); !ok || br.Tok != token.CONTINUE {
+			failShape("consumeString: the escape branch does not `continue`")
+		}
+		appended := func(body *ast.BlockStmt) string {
+			out := []string{}
+			for _, st := range body.List {
+				switch x := st.(type) {
+				case *ast.IncDecStmt:
+					if types.ExprString(x.X) != "l.line" {
+						failShape("consumeString: escape branch: %s", types.ExprString(x.X))
+					}
+				case *ast.AssignStmt:
+					lhs := types.ExprString(x.Lhs[0])
+					if lhs == "l.col" && types.ExprString(x.Rhs[0]) == "0" {
+						continue
+					}
+					call, ok := x.Rhs[0].(*ast.CallExpr)
+					if lhs != "value" || !ok || types.ExprString(call.Fun) != "append" || len(call.Args) < 2 || types.ExprString(call.Args[0]) != "value" || call.Ellipsis.IsValid() {
+						failShape("consumeString: escape branch: unknown statement %s = %s", lhs, types.ExprString(x.Rhs[0]))
+					}
+					for _, a := range call.Args[1:] {
+						if types.ExprString(a) == "next" {
+							out = append(out, "None")
+						} else {
+							out = append(out, "Some "+strconv.Itoa(byteOf(a)))
+						}
+					}
+				default:
+					failShape("consumeString: escape branch: unknown statement")
+				}
+			}
+			return "[" + strings.Join(out, "; ") + "]"
+		}
+		var rules []string
+		escDefault := ""
+		var chain ast.Stmt = escIf.Body.List[0]
+		for chain != nil {
+			switch x := chain.(type) {
+			case *ast.IfStmt:
+				if x.Init != nil {
+					failShape("consumeString: escape chain: if with an init statement")
+				}
+				var bs []string
+				ml := false
+				var cond func(e ast.Expr)
+				cond = func(e ast.Expr) {
+					if p, ok := e.(*ast.ParenExpr); ok {
+						e = p.X
+					}
+					if id, ok := e.(*ast.Ident); ok && id.Name == "multiline" {
+						ml = true
+						return
+					}
+					be, ok := e.(*ast.BinaryExpr)
+					if !ok {
+						failShape("consumeString: escape chain condition: %s", types.ExprString(e))
+					}
+					switch be.Op {
+					case token.LOR:
+						cond(be.X)
+						cond(be.Y)
+					case token.LAND:
+						if types.ExprString(be.Y) != "multiline" || ml {
+							failShape("consumeString: escape chain condition: %s", types.ExprString(e))
+						}
+						cond(be.X)
+						ml = true
+					case token.EQL:
+						if types.ExprString(be.X) != "next" {
+							failShape("consumeString: escape chain condition: %s", types.ExprString(e))
+						}
+						bs = append(bs, strconv.Itoa(byteOf(be.Y)))
+					default:
+						failShape("consumeString: escape chain condition: %s", types.ExprString(e))
+					}
+				}
+				cond(x.Cond)
+				if ml && len(bs) != 1 {
+					failShape("consumeString: escape chain: `&& multiline` on a disjunction")
+				}
+				mls := "false"
+				if ml {
+					mls = "true"
+				}
+				rules = append(rules, "(["+strings.Join(bs, "; ")+"], "+mls+", "+appended(x.Body)+")")
+				chain = x.Else
+			case *ast.BlockStmt:
+				escDefault = appended(x)
+				chain = nil
+			default:
+				failShape("consumeString: escape chain: unknown statement")
+			}
+		}
+		if escDefault == "" {
+			failShape("consumeString: the escape chain has no final else")
+		}
+		b.WriteString("Definition asp_escape_rules : list (list N * bool * list (option N)) :=\n  [" + strings.Join(rules, ";\n   ") + "]%N.\n")
+		b.WriteString("Definition asp_escape_default : list (option N) := " + escDefault + "%N.\n")
+
+		// --- asp operator precedence (grammar.go Operator.Precedence) ----------------------------------------
+		_, fg := parseFile("src/parse/asp/grammar.go")
+		pf := findFunc(fg, "Operator", "Precedence")
+		if len(pf.Body.List) != 1 {
+			failShape("Precedence: the body is not a single switch")
+		}
+		psw, ok := pf.Body.List[0].(*ast.SwitchStmt)
+		if !ok || psw.Init != nil || psw.Tag == nil || types.ExprString(psw.Tag) != "o" {
+			failShape("Precedence: the body is not `switch o`")
+		}
+		intOf := func(cc *ast.CaseClause) string {
+			if len(cc.Body) != 1 {
+				failShape("Precedence: a clause is not a single return")
+			}
+			ret, ok := cc.Body[0].(*ast.ReturnStmt)
+			if !ok || len(ret.Results) != 1 {
+				failShape("Precedence: a clause is not a single return")
+			}
+			e := ret.Results[0]
+			neg := false
+			if u, ok := e.(*ast.UnaryExpr); ok && u.Op == token.SUB {
+				neg, e = true, u.X
+			}
+			lit, ok := e.(*ast.BasicLit)
+			if !ok || lit.Kind != token.INT {
+				failShape("Precedence: a clause does not return an integer literal")
+			}
+			if _, err := strconv.Atoi(lit.Value); err != nil {
+				failShape("Precedence: %s", lit.Value)
+			}
+			if neg {
+				return "(-" + lit.Value + ")"
+			}
+			return lit.Value
+		}
+		var precs []string
+		precDefault, sawPrecDefault := "", false
+		seenOp := map[string]bool{}
+		for _, c := range psw.Body.List {
+			cc := c.(*ast.CaseClause)
+			if cc.List == nil {
+				precDefault, sawPrecDefault = intOf(cc), true
+				continue
+			}
+			v := intOf(cc)
+			for _, e := range cc.List {
+				id, ok := e.(*ast.Ident)
+				if !ok || seenOp[id.Name] {
+					failShape("Precedence: case label %s", types.ExprString(e))
+				}
+				seenOp[id.Name] = true
+				precs = append(precs, "("+coqString(id.Name)+", "+v+")")
+			}
+		}
+		if !sawPrecDefault {
+			failShape("Precedence: no default clause")
+		}
+		b.WriteString("Definition asp_precedence : list (string * Z) :=\n  [" + strings.Join(precs, "; ") + "]%Z.\n")
+		b.WriteString("Definition asp_precedence_default : Z := " + precDefault + "%Z.\n")
 		return b.String()
 	}
 }
